@@ -100,8 +100,12 @@ class LexicaseSelection(GeneticStep):
                     fitness_values = np.array(
                         [get_fitness_value(x, c) for x in candidates_to_check if not np.isnan(get_fitness_value(x, c))],
                     )
-                    mad = np.median(np.absolute(fitness_values - np.median(fitness_values)))
-                    checking_value = best_fitness + mad if problem.minimize[c] else best_fitness - mad
+                    with np.errstate(invalid="ignore"):
+                        mad = np.median(np.absolute(fitness_values - np.median(fitness_values)))
+                    if np.isfinite(mad) and np.isfinite(best_fitness):
+                        checking_value = best_fitness + mad if problem.minimize[c] else best_fitness - mad
+                    # otherwise (infinite case values: inf - inf) there is no band: only the best value itself passes,
+                    # instead of nobody passing and the selection failing on an empty list
 
                 for checking_candidate in candidates_to_check:
                     fitness: Fitness = checking_candidate.get_fitness(problem)
